@@ -12,7 +12,9 @@ import (
 	"strings"
 	"time"
 
+	"google.golang.org/protobuf/proto"
 	"google.golang.org/protobuf/reflect/protoregistry"
+	"google.golang.org/protobuf/types/descriptorpb"
 	"verifharness/descgen"
 	"verifharness/vh"
 )
@@ -38,7 +40,7 @@ func poolSize() int {
 	return n
 }
 
-var classN = map[string]int{"ok": 0, "err": 1, "panic": 2, "fatal": 4, "timeout": 5, "nilnil": 6, "skip": 7}
+var classN = map[string]int{"ok": 0, "err": 1, "panic": 2, "fatal": 3, "timeout": 3, "nilnil": 6, "skip": 7}
 
 var reNum = regexp.MustCompile(`[0-9]+`)
 var reQuoted = regexp.MustCompile(`"[^"]*"`)
@@ -51,6 +53,7 @@ func normMsg(s string) string {
 	// names of generated things
 	s = regexp.MustCompile(`gen\.[a-z]\.v[0-9](\.sub)?\.[A-Za-z0-9_.]+`).ReplaceAllString(s, "<name>")
 	s = regexp.MustCompile(`gen\.[a-z]\.v[0-9](\.sub)?`).ReplaceAllString(s, "<pkg>")
+	s = regexp.MustCompile(`field [A-Za-z0-9_.]+: `).ReplaceAllString(s, "field <path>: ")
 	s = reNum.ReplaceAllString(s, "N")
 	if len(s) > 160 {
 		s = s[:160]
@@ -134,7 +137,7 @@ func runC18(cfg *vh.Config) error {
 	for _, c := range cases {
 		os := obs[c.id]
 		var terms []string
-		input := map[string]any{"files": c.c.GenPaths(), "seed": cfg.Seed, "case": c.id, "descriptor_set_base64": c.req.SetB64}
+		input := map[string]any{"files": c.c.GenPaths(), "seed": cfg.Seed, "case": c.id, "generated_files_base64": genOnlyB64(c.c)}
 		fresh := map[string]string{} // msg -> fresh-cache class
 		freshEnc := map[string]string{}
 		for _, o := range os {
@@ -188,11 +191,11 @@ func runC18(cfg *vh.Config) error {
 					clause, _, _ := strings.Cut(v, ":")
 					fail("C18 client properties "+clause+": "+normMsg(v), "on success every property's proto field path resolves to a field of the matching kind and names are unique", v)
 				}
-				nviol := 0
-				if len(o.Viol) > 0 {
-					nviol = 1
+				dup, unres := false, false
+				if len(o.Sub) == 2 {
+					dup, unres = o.Sub[0] == "dup", o.Sub[1] == "unresolved"
 				}
-				terms = append(terms, fmt.Sprintf("OClient %s %d %d", descgen.Str(arg), classN[o.Class], nviol))
+				terms = append(terms, fmt.Sprintf("OClient %s %d %v %v", descgen.Str(arg), classN[o.Class], dup, unres))
 			case "newroot":
 				if bad {
 					fail(fmt.Sprintf("C18 Reflector.NewRoot -> %s in %s: %s", o.Class, o.Site, normMsg(o.Msg)), "never panics", o.Msg)
@@ -206,15 +209,19 @@ func runC18(cfg *vh.Config) error {
 					terms = append(terms, fmt.Sprintf("OCodec %s %d %d", descgen.Str(arg), classN[o.Class], classN[o.Class]))
 					break
 				}
-				names := []string{"encode empty", "decode empty", "encode populated", "decode populated"}
+				names := []string{"encode empty", "decode empty", "encode populated", "decode populated", "encode single-field"}
 				for i, s := range o.Sub {
 					if s != "ok" && s != "skip" {
-						fail(fmt.Sprintf("C18 codec %s of a reflected type -> %s: %s", names[i], s, normMsg(o.SubMsg[i])), "the codec can encode and decode an empty and a populated message of every reflected type", o.SubMsg[i]+" json="+o.Extra)
+						m := o.SubMsg[i]
+						if i == 4 { // "<field>: <text>"
+							_, m, _ = strings.Cut(m, ": ")
+						}
+						fail(fmt.Sprintf("C18 codec %s of a reflected type -> %s: %s", names[i], s, normMsg(m)), "the codec can encode and decode an empty and a populated message of every reflected type", o.SubMsg[i]+" input="+o.Extra)
 					}
 				}
-				if len(o.Sub) == 4 {
+				if len(o.Sub) == 5 {
 					freshEnc[arg] = o.Sub[2]
-					terms = append(terms, fmt.Sprintf("OCodec %s %d %d", descgen.Str(arg), classN[o.Sub[0]], classN[o.Sub[2]]))
+					terms = append(terms, fmt.Sprintf("OCodec %s %d %d", descgen.Str(arg), classN[o.Sub[0]], classN[o.Sub[4]]))
 				}
 			case "hist":
 				if bad {
@@ -255,6 +262,16 @@ func runC18(cfg *vh.Config) error {
 	}
 	res.Shards = shards
 	return res.Write(cfg.Out)
+}
+
+// genOnlyB64 is the FileDescriptorSet of the generated files alone (their imports are
+// descgen.DepPaths, taken from the Go registry).
+func genOnlyB64(c *descgen.Case) string {
+	b, err := proto.MarshalOptions{Deterministic: true}.Marshal(&descriptorpb.FileDescriptorSet{File: c.Gen})
+	if err != nil {
+		return ""
+	}
+	return base64.StdEncoding.EncodeToString(b)
 }
 
 func summarize(os []Obs) []string {
